@@ -515,3 +515,300 @@ Proof.
     apply UO_trans with (fs s4); [exact U|]. destruct post; cbn [fst]; rewrite F6f; exact S5.
   - apply UO_trans with (fs s4); [exact U|exact S5].
 Qed.
+
+(* ---------- within the limit, the limit is invisible ---------- *)
+(* the same state with MaxFileSize switched off *)
+Definition mf0 (s : srv) : srv := with_conf s (set_maxfile (conf s) 0).
+
+Lemma fs_mf0 s : fs (mf0 s) = fs s. Proof. reflexivity. Qed.
+Lemma now_mf0 s : now (mf0 s) = now s. Proof. reflexivity. Qed.
+Lemma ro_mf0 s : ro (conf (mf0 s)) = ro (conf s). Proof. reflexivity. Qed.
+Lemma tsize_mf0 s : tsize (conf (mf0 s)) = tsize (conf s). Proof. reflexivity. Qed.
+Lemma maxfile_mf0 s : maxfile (conf (mf0 s)) = 0. Proof. reflexivity. Qed.
+Lemma logc_mf0 s c : logc (mf0 s) c = mf0 (logc s c). Proof. reflexivity. Qed.
+Lemma with_fs_mf0 s f : with_fs (mf0 s) f = mf0 (with_fs s f). Proof. reflexivity. Qed.
+Lemma ac_invalidate_mf0 s p : ac_invalidate (mf0 s) p = mf0 (ac_invalidate s p). Proof. reflexivity. Qed.
+Lemma node_get_mf0 s h : node_get (mf0 s) h = node_get s h. Proof. reflexivity. Qed.
+Lemma node_set_mf0 s h a : node_set (mf0 s) h a = mf0 (node_set s h a). Proof. reflexivity. Qed.
+Lemma node_upd_mf0 s h f : node_upd (mf0 s) h f = mf0 (node_upd s h f).
+Proof. unfold node_upd. rewrite node_get_mf0. destruct (node_get s h); reflexivity. Qed.
+Lemma lookup_node_mf0 s h : lookup_node (mf0 s) h = lookup_node s h. Proof. reflexivity. Qed.
+Lemma lift_unit_mf0 s c r : lift_unit (mf0 s) c r = (mf0 (fst (lift_unit s c r)), snd (lift_unit s c r)).
+Proof. reflexivity. Qed.
+Lemma do_stat_mf0 s p : do_stat (mf0 s) p = (mf0 (fst (do_stat s p)), snd (do_stat s p)). Proof. reflexivity. Qed.
+Lemma do_lstat_mf0 s p : do_lstat (mf0 s) p = (mf0 (fst (do_lstat s p)), snd (do_lstat s p)). Proof. reflexivity. Qed.
+Lemma ac_get_mf0 s p : ac_get (mf0 s) p = (mf0 (fst (ac_get s p)), snd (ac_get s p)).
+Proof.
+  unfold ac_get. change (ac (mf0 s)) with (ac s). rewrite now_mf0.
+  destruct (ac_find (ac s) p) as [e|]; [|reflexivity].
+  destruct (now s <? ac_expire e); [reflexivity|]. destruct (ac_expire e <? now s); reflexivity.
+Qed.
+Lemma ac_put_mf0 s p a : ac_put (mf0 s) p a = mf0 (ac_put s p a). Proof. reflexivity. Qed.
+Lemma srv_getattr_mf0 s p u g : srv_getattr (mf0 s) p u g = (mf0 (fst (srv_getattr s p u g)), snd (srv_getattr s p u g)).
+Proof.
+  unfold srv_getattr. rewrite ac_get_mf0. destruct (ac_get s p) as [s1 x]. cbn [fst snd].
+  rewrite do_lstat_mf0. destruct (do_lstat s1 p) as [s2 [fi|e]]; cbn [fst snd]; [rewrite ac_put_mf0|]; reflexivity.
+Qed.
+Lemma getattr_h_mf0 s h p : getattr_h (mf0 s) h p = (mf0 (fst (getattr_h s h p)), snd (getattr_h s h p)).
+Proof. unfold getattr_h. rewrite node_get_mf0. destruct (node_get s h); apply srv_getattr_mf0. Qed.
+
+Ltac push :=
+  repeat first [ rewrite logc_mf0 | rewrite with_fs_mf0 | rewrite ac_invalidate_mf0 | rewrite node_set_mf0
+               | rewrite node_upd_mf0 | rewrite fs_mf0 | rewrite now_mf0 ].
+Ltac norm := cbn [fst snd fs now logc with_fs ac_invalidate with_ac lift_unit do_stat]; push.
+
+Lemma handle_write_sim s h off cnt stable data : no_fbig_write s off cnt ->
+  handle_write (mf0 s) h off cnt stable data =
+  (mf0 (fst (handle_write s h off cnt stable data)), snd (handle_write s h off cnt stable data)).
+Proof.
+  intros Hm. unfold handle_write. rewrite ro_mf0, tsize_mf0, maxfile_mf0.
+  replace ((0 <? maxfile (conf s)) && (0 <? cnt) && ((maxfile (conf s) <? off) || (maxfile (conf s) - off <? cnt)))
+    with false by (unfold no_fbig_write in Hm; lia).
+  change (0 <? 0) with false. cbn [andb].
+  destruct (ro (conf s)); [reflexivity|].
+  destruct (two64 - 1 - cnt <? off); [reflexivity|].
+  destruct (negb (cnt =? N.of_nat (length data))); [reflexivity|].
+  destruct (tsize (conf s) <? cnt); [reflexivity|].
+  rewrite lookup_node_mf0. destruct (lookup_node s h) as [[p na]|]; [|reflexivity].
+  rewrite getattr_h_mf0. destruct (getattr_h s h p) as [s1 [prea|e]]; cbn [fst snd]; [|reflexivity].
+  destruct (two63N <=? off).
+  { rewrite getattr_h_mf0. destruct (getattr_h s1 h p) as [s2 post]. reflexivity. }
+  norm. destruct (be_open (fs s1) p true) as [q|e].
+  2:{ rewrite getattr_h_mf0. destruct (getattr_h _ h p) as [s2 post]. reflexivity. }
+  destruct (be_writeat (fs s1) q (Z.of_N off) data (now s1)) as [fs1 [n|e]]; norm.
+  2:{ rewrite getattr_h_mf0. destruct (getattr_h _ h p) as [s2 post]. reflexivity. }
+  destruct (be_stat (fst (be_chtimes (be_sync fs1 q) p (now s1))) p true) as [fi|e]; norm;
+  rewrite getattr_h_mf0; destruct (getattr_h _ h p) as [s9 [a|e2]]; reflexivity.
+Qed.
+
+Lemma srv_setattr_mf0 s h p cur new :
+  srv_setattr (mf0 s) h p cur new = (mf0 (fst (srv_setattr s h p cur new)), snd (srv_setattr s h p cur new)).
+Proof.
+  unfold srv_setattr. rewrite do_stat_mf0. destruct (do_stat s p) as [s1 [fi|e]]; cbn [fst snd]; [|reflexivity].
+  cbv zeta.
+  destruct (na_perm new =? na_perm cur); norm.
+  2: destruct (be_chmod (fs s1) p (na_perm new)) as [f2 [u2|e2]]; norm; [|reflexivity].
+
+  all: destruct ((na_uid new =? na_uid cur) && (na_gid new =? na_gid cur)); norm.
+  all: try (match goal with |- context [be_chown ?f ?q ?u ?g] => destruct (be_chown f q u g) as [f3 [u3|e3]] end; norm; [|reflexivity]).
+  all: match goal with |- context [if ?c then _ else _] => destruct c end; norm; try reflexivity.
+  all: destruct (na_mtime new =? 0); norm.
+  all: try (match goal with |- context [be_stat ?f ?q true] => destruct (be_stat f q true) end; norm; reflexivity).
+  all: match goal with |- context [be_chtimes ?f ?q ?t] => destruct (be_chtimes f q t) as [f4 [u4|e4]] end; norm; reflexivity.
+Qed.
+
+Lemma node_upd_now s h f : now (node_upd s h f) = now s.
+Proof. unfold node_upd. destruct (node_get s h); reflexivity. Qed.
+Ltac sa_tail :=
+  rewrite node_get_mf0; rewrite ?node_upd_now; cbn [now logc with_fs ac_invalidate with_ac];
+  match goal with |- context [node_get ?X ?h] => destruct (node_get X h) as [cur|] end; [|reflexivity];
+  rewrite srv_setattr_mf0;
+  match goal with |- context [srv_setattr ?X ?h ?p ?c ?n] => destruct (srv_setattr X h p c n) as [s5 [u5|e5]] end;
+  cbn [fst snd]; [|reflexivity];
+  rewrite getattr_h_mf0;
+  match goal with |- context [getattr_h ?X ?h ?p] => destruct (getattr_h X h p) as [s6 [a6|e6]] end; reflexivity.
+
+Definition no_fbig_sattr (s : srv) (sa : sattr) : Prop :=
+  forall sz, s_size sa = Some sz -> maxfile (conf s) = 0 \/ sz <= maxfile (conf s) \/ two63N <= sz.
+
+Lemma handle_setattr_sim s c h sa guard : no_fbig_sattr s sa ->
+  handle_setattr (mf0 s) c h sa guard =
+  (mf0 (fst (handle_setattr s c h sa guard)), snd (handle_setattr s c h sa guard)).
+Proof.
+  intros Hm. unfold handle_setattr. rewrite ro_mf0.
+  destruct (ro (conf s)); [reflexivity|].
+  destruct (match s_mode sa with Some m => N.testbit m 15 | None => false end); [reflexivity|].
+  rewrite lookup_node_mf0. destruct (lookup_node s h) as [[p na]|]; [|reflexivity].
+  pose proof (getattr_h_fr s h p) as (_ & F1c & _).
+  rewrite getattr_h_mf0. destruct (getattr_h s h p) as [s1 [prea|e]]; cbn [fst snd] in *; [|reflexivity].
+  match goal with |- context [if ?c then (mf0 s1, fail_wcc NFSERR_NOT_SYNC) else _] => destruct c end; [reflexivity|].
+  rewrite maxfile_mf0. change (0 <? 0) with false. cbn [andb].
+  destruct (s_size sa) as [sz|] eqn:Hsz.
+  - destruct (two63N <=? sz) eqn:E63; [reflexivity|].
+    rewrite F1c. replace ((0 <? maxfile (conf s)) && (maxfile (conf s) <? sz)) with false by (specialize (Hm sz Hsz); lia).
+    norm. destruct (be_truncate (fs s1) p (Z.of_N sz) (now s1)) as [f1 [u|e]]; norm; [|reflexivity].
+    destruct (be_stat f1 p true) as [fi|e]; norm; sa_tail.
+  - norm. sa_tail.
+Qed.
+
+(* ====================================================================================================== *)
+(* 6. CREATE of a new name                                                                                *)
+(* ====================================================================================================== *)
+Lemma ac_find_remove l p : ac_find (ac_remove l p) p = None.
+Proof.
+  unfold ac_find, ac_remove. induction l as [|a l IH]; cbn [filter find]; [reflexivity|].
+  destruct (path_eqb p (ac_path a)) eqn:E; cbn [negb find]; [exact IH|rewrite E; exact IH].
+Qed.
+Lemma invalidate_for_new_fr s d p : Fr s (invalidate_for_new s d p) /\ ac_find (ac (invalidate_for_new s d p)) p = None.
+Proof.
+  unfold invalidate_for_new, dc_invalidate.
+  match goal with |- context [if ?c then _ else _] => destruct c end; cbn [ac with_dc ac_invalidate with_ac];
+  (split; [unfold Fr; cbn; tauto|apply ac_find_remove]).
+Qed.
+(* Lookup right after the invalidation: an Lstat *)
+Lemma srv_lookup_miss s p : ac_find (ac s) p = None ->
+  snd (srv_lookup s p) = match be_stat (fs s) p false with Ok fi => Ok (attrs_of_info fi (fileid_of p) 0 0) | Err e => Err e end.
+Proof.
+  intros H. unfold srv_lookup, ac_get. rewrite H. unfold do_lstat.
+  destruct (be_stat (fs s) p false) as [fi|e]; [reflexivity|]. destruct e; reflexivity.
+Qed.
+
+Definition chmod_f (m : N) (o : obj) : obj := set_meta o (N.land m 511) (o_uid o) (o_gid o) (o_mtime o).
+Definition chown_f (u g : N) (o : obj) : obj := set_meta o (o_perm o) u g (o_mtime o).
+
+Lemma srv_create_new s d od n perm uid gid :
+  ro (conf s) = false -> sanitize_ok d n = true -> plain (fs s) d od -> absent (fs s) d n ->
+  let r := srv_create s d n perm uid gid in
+  let fs' := fs_upd (fs_upd (created_fs (fs s) d n (now s)) (d ++ [n]) (chmod_f (N.land perm 511))) (d ++ [n]) (chown_f uid gid) in
+  (exists a, snd r = Ok a) /\ fs (fst r) = fs' /\
+  plain fs' (d ++ [n]) (chown_f uid gid (chmod_f (N.land perm 511) (mk_file 438 (now s)))) /\
+  plain fs' d (touch_f (now s) od).
+Proof.
+  intros Hro Hs Pd Ab. cbv zeta. unfold srv_create. rewrite Hro, Hs. cbn [negb].
+  rewrite (be_create_absent _ _ _ _ Ab). cbn [fst snd fs logc with_fs lift_unit].
+  pose proof (created_plain_new _ _ _ (now s) Ab) as P0.
+  pose proof (created_plain_old _ _ _ (now s) d od Ab Pd) as D0. rewrite path_eqb_refl in D0.
+  set (fsA := created_fs (fs s) d n (now s)) in *.
+  rewrite (be_chmod_plain _ _ _ _ P0). cbn [fst snd fs logc with_fs lift_unit]. fold (chmod_f (N.land perm 511)).
+  assert (K1 : keeps_shape (chmod_f (N.land perm 511))) by (intros x; split; reflexivity).
+  pose proof (plain_upd fsA _ _ (d ++ [n]) _ K1 P0) as P1. rewrite path_eqb_refl in P1.
+  pose proof (plain_upd fsA _ _ (d ++ [n]) _ K1 D0) as D1.
+  replace (path_eqb d (d ++ [n])) with false in D1 by (symmetry; apply path_eqb_neq; intros X; symmetry in X; revert X; apply app_one_neq).
+  set (fsB := fs_upd fsA (d ++ [n]) (chmod_f (N.land perm 511))) in *.
+  rewrite (be_chown_plain _ _ _ _ _ P1). cbn [fst snd fs logc with_fs lift_unit]. fold (chown_f uid gid).
+  assert (K2 : keeps_shape (chown_f uid gid)) by (intros x; split; reflexivity).
+  pose proof (plain_upd fsB _ _ (d ++ [n]) _ K2 P1) as P2. rewrite path_eqb_refl in P2.
+  pose proof (plain_upd fsB _ _ (d ++ [n]) _ K2 D1) as D2.
+  replace (path_eqb d (d ++ [n])) with false in D2 by (symmetry; apply path_eqb_neq; intros X; symmetry in X; revert X; apply app_one_neq).
+  set (fsC := fs_upd fsB (d ++ [n]) (chown_f uid gid)) in *.
+  match goal with |- context [srv_lookup (invalidate_for_new ?X d ?p) ?p] =>
+    destruct (invalidate_for_new_fr X d p) as ((If & _) & Ia);
+    pose proof (srv_lookup_miss _ _ Ia) as V; pose proof (srv_lookup_ro (invalidate_for_new X d p) p) as (Rf & _)
+  end.
+  cbn [fs logc with_fs] in If. rewrite If in V. rewrite Rf, If.
+  rewrite (be_stat_plain _ _ _ false P2) in V.
+  splits; [eexists; exact V|reflexivity|exact P2|exact D2].
+Qed.
+
+Lemma handle_create_new s c h d dattr od n how sa :
+  ro (conf s) = false -> validate_name n = st_ok -> sanitize_ok d n = true -> (how = 0 \/ how = 1) ->
+  validate_mode (match s_mode sa with Some m => m | None => 420 end) = st_ok ->
+  lookup_node s h = Some (d, dattr) -> na_kind dattr = KDir -> plain_dir (fs s) d od -> absent (fs s) d n ->
+  let r := handle_create s c h n how sa in
+  ob_rpc (snd r) = 0 /\ ob_status (snd r) = 0 /\
+  (exists o', fs_get (fs (fst r)) (d ++ [n]) = Some o' /\ o_kind o' = KFile /\ o_size o' = 0 /\ o_data o' = [] /\
+              bf_eq (file_of o') empty_file) /\
+  fs_get (fs (fst r)) d = Some (touch_f (now s) od) /\
+  (forall q, q <> d ++ [n] -> q <> d -> fs_get (fs (fst r)) q = fs_get (fs s) q).
+Proof.
+  intros Hro Hn Hs Hhow Hmode L Kd [Pd Kod] Ab. cbv zeta. unfold handle_create.
+  rewrite Hro, Hn. change (negb (st_ok =? st_ok)) with false. cbv iota.
+  replace ((how =? 0) || (how =? 1)) with true by lia. replace (how =? 2) with false by lia.
+  rewrite Hmode. change (negb (st_ok =? st_ok)) with false. cbv iota.
+  rewrite L, Kd. cbn [kind_eqb negb].
+  ga s1 pre F1 V1. rewrite (be_stat_plain _ _ _ false Pd) in V1. subst pre.
+  destruct F1 as (F1f & F1c & F1h & F1n & F1t & F1s).
+  assert (St : be_stat (fs s) (d ++ [n]) false = Err ENOENT) by (unfold be_stat; rewrite Ab; reflexivity).
+  unfold do_lstat. rewrite F1f, St. cbv beta iota.
+  match goal with |- context [srv_create ?X d n ?m ?u ?g] =>
+    pose proof (srv_create_new X d od n m u g) as SC; cbv zeta in SC;
+    destruct (srv_create X d n m u g) as [s3 r3]
+  end.
+  cbn [fs conf now logc fst snd] in SC. rewrite F1f, F1c, F1t in SC.
+  destruct (SC Hro Hs Pd Ab) as ((a & ->) & Ef & Pn & Pdd). clear SC.
+  unfold created_reply.
+  ga s4 dpost F4 V4. rewrite Ef, (be_stat_plain _ _ _ false Pdd) in V4. subst dpost.
+  destruct F4 as (F4f & _).
+  match goal with |- context [alloc s4 ?p ?x] => pose proof (alloc_ro s4 p x) as (Af & _); destruct (alloc s4 p x) as [s5 fh] end.
+  cbn [fst snd ob_mk ob_rpc ob_status] in *. rewrite Af, F4f, Ef.
+  splits; try reflexivity.
+  - eexists. split; [apply (plain_get _ _ _ Pn)|]. splits; try reflexivity. apply bf_eq_refl.
+  - apply (plain_get _ _ _ Pdd).
+  - intros q Q1 Q2. rewrite !fs_get_upd_other by exact Q1.
+    rewrite created_fs_get by (apply (missing_get _ _ _ _ Ab)).
+    apply path_eqb_neq in Q1, Q2. rewrite Q1, Q2. destruct (fs_get (fs s) q); reflexivity.
+Qed.
+
+(* ====================================================================================================== *)
+(* 7. the same at the level of [step] (the backend log starts empty)                                      *)
+(* ====================================================================================================== *)
+Lemma step_read s c h off cnt : step s c (RRead h off cnt) = handle_read (clear_log s) h off cnt.
+Proof. reflexivity. Qed.
+Lemma step_write s c h off cnt st data : step s c (RWrite h off cnt st data) = handle_write (clear_log s) h off cnt st data.
+Proof. reflexivity. Qed.
+Lemma step_setattr s c h sa g : step s c (RSetattr h sa g) = handle_setattr (clear_log s) c h sa g.
+Proof. reflexivity. Qed.
+Lemma RO_clear_safe s s' : RO (clear_log s) s' -> fs s' = fs s /\ (forall b, In b (blog s') -> mutating b = false).
+Proof. intros (A & _ & B). split; [exact A|]. apply B. intros b []. Qed.
+
+Lemma step_write_fbig s c h off cnt stable data :
+  0 < maxfile (conf s) -> ro (conf s) = false -> 0 < cnt -> cnt = N.of_nat (length data) -> cnt <= tsize (conf s) ->
+  off + cnt < two64 -> maxfile (conf s) < off + cnt ->
+  let r := step s c (RWrite h off cnt stable data) in
+  ob_rpc (snd r) = 0 /\ ob_status (snd r) = NFSERR_FBIG /\ fs (fst r) = fs s /\ blog (fst r) = [].
+Proof.
+  intros Hm Hro H0 Hc Ht H64 Hbig. cbv zeta. rewrite step_write, (handle_write_fbig (clear_log s)) by assumption.
+  cbn [fst snd fail_wcc ob_mk ob_rpc ob_status fs blog clear_log]. auto.
+Qed.
+Lemma step_setattr_fbig s c h p na fi sa sz :
+  lookup_node s h = Some (p, na) -> be_stat (fs s) p false = Ok fi -> ro (conf s) = false ->
+  match s_mode sa with Some m => N.testbit m 15 | None => false end = false ->
+  s_size sa = Some sz -> sz < two63N -> 0 < maxfile (conf s) -> maxfile (conf s) < sz ->
+  let r := step s c (RSetattr h sa None) in
+  ob_rpc (snd r) = 0 /\ ob_status (snd r) = NFSERR_FBIG /\ fs (fst r) = fs s /\
+  (forall b, In b (blog (fst r)) -> mutating b = false).
+Proof.
+  intros L St Hro Hmode Hsz H63 Hm Hbig. cbv zeta. rewrite step_setattr.
+  destruct (handle_setattr_size_reject (clear_log s) c h p na fi sa sz L St Hro Hmode Hsz) as (_ & X).
+  destruct (X H63 Hm Hbig) as (A & B & C). apply RO_clear_safe in C. tauto.
+Qed.
+Lemma step_create_fbig s c h d dattr n sa sz dfi fi :
+  ro (conf s) = false -> validate_name n = st_ok -> str_ok n = true ->
+  validate_mode (match s_mode sa with Some m => m | None => 420 end) = st_ok ->
+  lookup_node s h = Some (d, dattr) -> na_kind dattr = KDir ->
+  be_stat (fs s) d false = Ok dfi -> be_stat (fs s) (d ++ [n]) false = Ok fi -> fi_kind fi = KFile ->
+  s_size sa = Some sz -> sz < two63N -> 0 < maxfile (conf s) -> maxfile (conf s) < sz ->
+  let r := step s c (RCreate h n 0 sa) in
+  ob_rpc (snd r) = 0 /\ ob_status (snd r) = NFSERR_FBIG /\ fs (fst r) = fs s /\
+  (forall b, In b (blog (fst r)) -> mutating b = false).
+Proof.
+  intros Hro Hn Hstr Hmode L Kd Sd Sp Kf Hsz H63 Hm Hbig. cbv zeta.
+  unfold step. cbn [garbage_reply]. rewrite Hstr.
+  destruct (handle_create_fbig (clear_log s) c h d dattr n sa sz dfi fi Hro Hn Hmode L Kd Sd Sp Kf Hsz H63 Hm Hbig) as (A & B & C).
+  apply RO_clear_safe in C. tauto.
+Qed.
+
+(* the two halves of [handle_setattr_size_reject], and the rename-proof reading of the bounds *)
+Lemma handle_setattr_size_inval s c h p na fi sa sz :
+  lookup_node s h = Some (p, na) -> be_stat (fs s) p false = Ok fi -> ro (conf s) = false ->
+  match s_mode sa with Some m => N.testbit m 15 | None => false end = false ->
+  s_size sa = Some sz -> two63N <= sz ->
+  let r := handle_setattr s c h sa None in
+  ob_rpc (snd r) = 0 /\ ob_status (snd r) = NFSERR_INVAL /\ RO s (fst r).
+Proof. intros L St Hro Hm Hs. exact (proj1 (handle_setattr_size_reject s c h p na fi sa sz L St Hro Hm Hs)). Qed.
+
+Lemma handle_write_bound_spec s h off cnt stable data : 0 < maxfile (conf s) ->
+  forall p o', fs_get (fs (fst (handle_write s h off cnt stable data))) p = Some o' -> o_kind o' = KFile ->
+  o_size o' <= maxfile (conf s) \/ exists o, fs_get (fs s) p = Some o /\ o_kind o = KFile /\ o_size o' <= o_size o.
+Proof. intros Hm. apply UO_spec, handle_write_bound, Hm. Qed.
+Lemma handle_setattr_bound_spec s c h sa guard : 0 < maxfile (conf s) ->
+  forall p o', fs_get (fs (fst (handle_setattr s c h sa guard))) p = Some o' -> o_kind o' = KFile ->
+  o_size o' <= maxfile (conf s) \/ exists o, fs_get (fs s) p = Some o /\ o_kind o = KFile /\ o_size o' <= o_size o.
+Proof. intros Hm. apply UO_spec, handle_setattr_bound, Hm. Qed.
+(* and these two procedures never add, remove or move an object *)
+Lemma handle_write_keys s h off cnt stable data : 0 < maxfile (conf s) ->
+  forall p, fs_get (fs (fst (handle_write s h off cnt stable data))) p = None <-> fs_get (fs s) p = None.
+Proof.
+  intros Hm p. pose proof (handle_write_bound s h off cnt stable data Hm p) as H.
+  destruct (fs_get (fs (fst (handle_write s h off cnt stable data))) p) as [o'|].
+  - destruct H as (o & A & _). rewrite A. split; discriminate.
+  - rewrite H. tauto.
+Qed.
+Lemma handle_setattr_keys s c h sa guard : 0 < maxfile (conf s) ->
+  forall p, fs_get (fs (fst (handle_setattr s c h sa guard))) p = None <-> fs_get (fs s) p = None.
+Proof.
+  intros Hm p. pose proof (handle_setattr_bound s c h sa guard Hm p) as H.
+  destruct (fs_get (fs (fst (handle_setattr s c h sa guard))) p) as [o'|].
+  - destruct H as (o & A & _). rewrite A. split; discriminate.
+  - rewrite H. tauto.
+Qed.
